@@ -72,6 +72,14 @@ def product():
                 "why": "a default placed between the cases runs only when no case is equal"})
     out.append({"src": "r = []; for i in [1, 2] { switch i {\ncase 5: r += 5\n}; r += i }; r", "field": "result", "want": "[i:1,i:2]",
                 "why": "a switch without an equal case and without default runs nothing"})
+    # a for-in over a map visits the entries that are (still) there: an entry deleted before its turn is not visited, in both forms
+    for head in ("for k in m", "for k, v in m"):
+        out.append({"src": "m = {\"a\": 1, \"b\": 2, \"c\": 3}; n = 0; %s { n++; for j in [\"a\", \"b\", \"c\"] { if j != k { delete(m, j) } } }; n" % head,
+                    "field": "result", "want": "i:1", "why": "`%s`: entries deleted by the first iteration are not visited" % head})
+        out.append({"src": "func f() { m = {\"a\": 1, \"b\": 2}; first = true; %s { if !first { return 1 }; first = false; delete(m, \"a\"); delete(m, \"b\") }; return 0 }\nf()" % head,
+                    "field": "result", "want": "i:0", "why": "`%s`: a return behind a deleted entry is not reached" % head})
+        out.append({"src": "m = {\"a\": 1, \"b\": 2}; r = []; %s { r += k; m[\"z\" + k] = 0 }; len(r)" % head,
+                    "field": "result", "want": "i:2", "why": "`%s`: every entry present at the start and not deleted is visited once" % head})
     out.append({"src": "func f() { for k in {\"a\": 5} { return k + \"!\" }; return \"none\" }\nf()", "field": "result", "want": "s:6121",
                 "why": "return yields its value from a key-only for-in over a map"})
     out.append({"src": "func f() { x = 0; for x < 3 { x = x + 1; if x == 2 { return x * 10 } }; return -1 }\nf()", "field": "result", "want": "i:20",
